@@ -158,8 +158,10 @@ where
             let channel = request.header("Proxy-Channel", "inline");
             let inline = channel.eq_ignore_ascii_case("inline");
             let source = request.header("Udp-Bind-Source", "");
+            let udp_timeout = ctx_lock.default_udp_timeout();
             ctx_lock
                 .set_target(target)
+                .set_idle_timeout(udp_timeout)
                 .set_callback(FrameChannelCallback { session_id, inline });
             if source.is_empty() {
                 ctx_lock.set_feature(Feature::UdpForward);
